@@ -83,8 +83,9 @@ def run_once(scn, prefix=(), chooser=None):
     c = classes()
     ctl = sched.Controller(prefix, chooser)
     CURRENT[0] = ctl
-    old = (envbase.Queue, rls.threading)
-    envbase.Queue, rls.threading = ctl.Queue, ctl.threading_module()
+    import black_it.schedulers.rl.agents.epsilon_greedy  # noqa: F401 - make sure every rl module is loaded
+    sub = sched.substitute(ctl)
+    sub.__enter__()
     try:
         k = scn["samplers"]
         samplers = [RandomUniformSampler(1, random_state=i) for i in range(k)]
@@ -124,7 +125,7 @@ def run_once(scn, prefix=(), chooser=None):
         return ctl, outcome, len(schd.samplers) - 1
     finally:
         ctl.shutdown()
-        envbase.Queue, rls.threading = old
+        sub.__exit__()
         CURRENT[0] = None
 
 
